@@ -353,6 +353,10 @@ class RIBFamily:
         kf_seen = collections.Counter()
         for (ln, ev, comps) in mism:
             rec = segs.lines(ln, ln)[0] if len(byseg) < 40 else {}
+            if any(c in ("hang", "clientHang") for c in comps) and rec.get("blocked") == []:
+                # a watchdog expired although no goroutine is parked inside the package under test: the machine is too slow
+                # for the time limits - not a verdict about the code
+                raise Infra(f"{ev} at trace line {ln}: a call exceeded its time limit (several times over) without any goroutine blocked inside gribigo")
             mine = []
             for c in comps:
                 if c.startswith("KF:"):
